@@ -24,7 +24,7 @@ TAG_SWARM = "C18/swarm"
 
 TIERS = {
     "quick": dict(enum_scenarios=16, stdio_sites=6, swarm=400, real_lli=12, crash=120),
-    "thorough": dict(enum_scenarios=120, stdio_sites=40, swarm=80000, real_lli=300, crash=8000, real_clang=150, render=1800, verbose_large=300, overlap=600, rerun=1500, stale_binary=300),
+    "thorough": dict(enum_scenarios=120, stdio_sites=40, swarm=80000, real_lli=300, crash=8000, real_clang=150, render=1800, verbose_large=300, overlap=600, rerun=1500, stale_binary=300, same_dir_overlap=600),
 }
 
 ESC = b"\x1b"
@@ -303,8 +303,11 @@ def expected_output_path(sc):
 
 
 # ---------------------------------------------------------------- running --
-def exec_scenario(sc, wd, plan=None, keep=False, real_lli=False, restart=False, real_clang=False):
-    if restart:
+def exec_scenario(sc, wd, plan=None, keep=False, real_lli=False, restart=False, real_clang=False, second=False, hold=None):
+    if second:
+        # a second invocation in a directory where the first is still at work: nothing is set up or cleaned
+        pass
+    elif restart:
         # a restart after a crash: the directory is left exactly as the dead
         # process left it (only the simulator's own files are reset)
         for junk in ("trace.txt", "marker"):
@@ -331,8 +334,8 @@ def exec_scenario(sc, wd, plan=None, keep=False, real_lli=False, restart=False, 
             import detsim
             feeders.append(detsim.FifoFeeder(os.path.join(wd, rel), sc["files"][rel]))
     bindir = os.path.join(wd, "bin")
-    os.makedirs(bindir)
-    for name in sorted(set(sc["stubs"])):
+    os.makedirs(bindir, exist_ok=second)
+    for name in sorted(set(sc["stubs"])) if not second else []:
         if real_lli and name == "lli":
             os.symlink("/usr/bin/lli", os.path.join(bindir, name))
         elif real_clang and name == "clang":
@@ -351,10 +354,10 @@ def exec_scenario(sc, wd, plan=None, keep=False, real_lli=False, restart=False, 
     env = {"PATH": bindir + ":" + SYSTEM_PATH, "TMPDIR": os.path.join(wd, ".tmp")}
     env.update(sc["env"])
     env["VERIF_STUB_SCRIPT"] = ",".join("%s=%s" % (k, v) for k, v in sorted(script.items()))
-    env["VERIF_STUB_MARKER"] = os.path.join(wd, "marker")
-    trace_path = os.path.join(wd, "trace.txt")
+    env["VERIF_STUB_MARKER"] = os.path.join(wd, "marker" + ("-second" if second else ""))
+    trace_path = os.path.join(wd, "trace-second.txt" if second else "trace.txt")
     env = sim_env(env, entropy=sc.get("entropy", 1), plan=plan, order="child_first" if order == "child_first" else None,
-                  trace=trace_path, clock=(10**12, 1000), pid=sc.get("sim_pid", 4242))
+                  trace=trace_path, clock=(10**12, 1000), pid=sc.get("sim_pid", 4242) + (1 if second else 0), hold=hold)
     stdout_kind = sc.get("stdout_kind", "pipe")
     argv = [a.replace("{WD}", wd) for a in argv_of(sc)]     # absolute input paths are written {WD}/... in scenarios
     try:
@@ -395,7 +398,7 @@ def exec_scenario(sc, wd, plan=None, keep=False, real_lli=False, restart=False, 
                         obs["stdin"][rec["id"]] = f2.read()
     except OSError:
         pass
-    if not keep:
+    if not keep and not second:
         shutil.rmtree(wd, ignore_errors=True)
     return obs
 
@@ -988,6 +991,71 @@ def _rerun_job(args):
     return {"violations": viol, "runs": 3}
 
 
+def _same_dir_overlap_job(args):
+    """Two invocations of one `emit --out-dir` command in one directory, under one
+    fixed schedule: the first is parked right before one of its artefact writes
+    (simulated OS, action `hold`), the second runs from start to finish, the
+    first is let go. Both compile the same sources, so whatever the order of
+    their writes, both succeed and the artefacts are those of a single run."""
+    import threading
+    seed, i = args
+    rng = rng_for(seed, "C18/same_dir_overlap", i)
+    sc = make_scenario(rng, "emit", rng.choice(["valid_multi", "valid_single", "valid_multi"]),
+                       {"out_dir": rng.choice(["fresh", "nested", "existing"]), "silent": False, "verbose": False, "config": "none", "cell": (0, 0, 0), "wasm": False})
+    sc["name"] = "same_dir_overlap%d" % i
+    root = os.path.join(work_root(), "C18", "z%d" % i)
+    shutil.rmtree(root, ignore_errors=True)
+    census = run_census(sc, os.path.join(root, "census"))
+    calls, _ = parse_trace(census["trace"])
+    writes = [s_ for s_ in sites_of(calls) if s_["kind"] == "fwrite"]
+    res = {"violations": [], "runs": 1, "held": False}
+    if not writes or census["rc"] != 0:
+        shutil.rmtree(root, ignore_errors=True)
+        return res
+    site = writes[rng.randrange(len(writes))]
+    wd = os.path.join(root, "run")
+    gate = os.path.join(root, "gate")
+    os.mkfifo(gate)
+    box = {}
+    th = threading.Thread(target=lambda: box.update(obs=exec_scenario(sc, wd, plan=["fwrite:%d:hold:0" % site["idx"]], keep=True, hold=gate)), daemon=True)
+    th.start()
+    fd = None
+    while th.is_alive() and fd is None:
+        try:
+            fd = os.open(gate, os.O_WRONLY | os.O_NONBLOCK)     # succeeds once the first invocation is parked at its write
+        except OSError:
+            time.sleep(0.001)
+    res["held"] = fd is not None
+    ob = exec_scenario(sc, wd, second=True) if fd is not None else None
+    if fd is not None:
+        os.write(fd, b"x")
+        os.close(fd)
+    th.join(timeout=TIMEOUT_S + 5)
+    oa = box.get("obs")
+    final = {}
+    od = os.path.join(wd, sc["out_dir"])
+    for dp, _d, names in sorted(os.walk(od)) if os.path.isdir(od) else []:
+        for n in sorted(names):
+            p = os.path.join(dp, n)
+            if os.path.isfile(p) and not os.path.islink(p):
+                with open(p, "rb") as f:
+                    final[os.path.relpath(p, od)] = f.read(8 << 20)
+    viol = []
+    for tag, o in (("the invocation parked before its artefact write %d" % site["idx"], oa), ("the invocation that ran meanwhile", ob)):
+        if o is None:
+            if tag.startswith("the invocation parked") or fd is not None:
+                viol.append(("overlap_hang", "%s did not finish" % tag))
+        elif o["rc"] != 0 or o["sig"]:
+            viol.append(("overlap_interference", "%s: %s although the same command alone succeeds: %r" % (tag, o["status"], o["err"][-200:])))
+    if not viol and final != census["artefacts"]:
+        diff = sorted(k for k in set(final) | set(census["artefacts"]) if final.get(k) != census["artefacts"].get(k))
+        viol.append(("overlap_interference", "after two overlapping runs of one command the out-dir differs from a single run's: %s" % diff[:4]))
+    shutil.rmtree(root, ignore_errors=True)
+    res["runs"] = 3
+    res["violations"] = [{"class": c_, "detail": d_, "scenario": sc_json(sc), "plan": [], "fault": "same_dir_overlap", "index": i, "seed": seed} for c_, d_ in viol]
+    return res
+
+
 def _stale_binary_job(args):
     """A build that succeeds and leaves its executable, then the same build with a
     backend that fails (exit code, signal) without touching the file: the second
@@ -1384,7 +1452,7 @@ def minimise(v):
 
 def _min_job(v):
     set_min_budget()
-    if v.get("fault") in ("overlap", "rerun", "stale_binary"):
+    if v.get("fault") in ("overlap", "rerun", "stale_binary", "same_dir_overlap"):
         # a pair of invocations (under one fixed schedule / one after the other): replayed as a pair
         m, ok = v, False
     else:
@@ -1396,8 +1464,8 @@ def _min_job(v):
               "argv": " ".join(["penne"] + argv_of(sc_from_json(sc))[1:])}
     if v.get("fault") == "overlap":
         record["overlap"] = {"seed": v["seed"], "index": v["index"], "scenarios": v["overlap"]}
-    if v.get("fault") == "stale_binary":
-        record["stale_binary"] = {"seed": v["seed"], "index": v["index"]}
+    if v.get("fault") in ("stale_binary", "same_dir_overlap"):
+        record[v["fault"]] = {"seed": v["seed"], "index": v["index"]}
     summary = "%s: %s\n  scenario %s, argv: %s\n  fault plan: %s" % (m["class"], m["detail"][:400], sc.get("name"), record["argv"], m["plan"])
     return Finding(PROP, m["class"], record, signature=m["class"], summary=summary)
 
@@ -1489,6 +1557,12 @@ def run(tier, seed):
         runs += res["runs"]
         rerun_pairs += 1
         raw.extend(res["violations"])
+    same_dir_pairs = same_dir_held = 0
+    for res in parallel_map(_same_dir_overlap_job, [(seed, i) for i in range(cfg.get("same_dir_overlap", 24))]):
+        runs += res["runs"]
+        same_dir_pairs += 1
+        same_dir_held += bool(res["held"])
+        raw.extend(res["violations"])
     for res in parallel_map(_stale_binary_job, [(seed, i) for i in range(cfg.get("stale_binary", 12))]):
         runs += res["runs"]
         raw.extend(res["violations"])
@@ -1533,6 +1607,8 @@ def run(tier, seed):
         "real_clang_end_to_end_builds": clang_runs,
         "reruns_in_the_same_directory": rerun_pairs,
         "overlapping_invocation_pairs": overlap_runs,
+        "overlapping_pairs_in_one_out_dir": same_dir_pairs,
+        "overlapping_pairs_in_one_out_dir_parked_at_a_write": same_dir_held,
         "overlapping_invocation_pairs_that_reached_the_gate": overlap_reached,
         "fault_kinds_configured": configured,
         "fault_kinds_fired": fired,
@@ -1558,9 +1634,13 @@ def run(tier, seed):
 
 def replay(record):
     disable_aslr()
-    if record.get("overlap") or record.get("stale_binary"):
-        res = _overlap_job((record["overlap"]["seed"], record["overlap"]["index"])) if record.get("overlap") else \
-            _stale_binary_job((record["stale_binary"]["seed"], record["stale_binary"]["index"]))
+    if record.get("overlap") or record.get("stale_binary") or record.get("same_dir_overlap"):
+        if record.get("overlap"):
+            res = _overlap_job((record["overlap"]["seed"], record["overlap"]["index"]))
+        elif record.get("stale_binary"):
+            res = _stale_binary_job((record["stale_binary"]["seed"], record["stale_binary"]["index"]))
+        else:
+            res = _same_dir_overlap_job((record["same_dir_overlap"]["seed"], record["same_dir_overlap"]["index"]))
         for v in res["violations"]:
             print("replay: %s: %s" % (v["class"], v["detail"][:400]))
         if any(v["class"] == record["observed"]["class"] for v in res["violations"]):
